@@ -489,9 +489,10 @@ fn oracle(log: &[Obs], mode: Mode, bad_url: bool, cup: bool) -> V {
     let mut i = 0;
     // continuous operation starts with the schedule announcement of the wait
     if mode == Mode::Start {
-        match evs.get(i) {
-            Some(Ev::Sched(_)) => i += 1,
-            e => return bad("missing initial schedule announcement", format!("got {e:?}")),
+        // schedule / protocol announcements of the wait that precedes the check are not this
+        // property's business
+        while let Some(Ev::Sched(_) | Ev::Proto(_)) = evs.get(i) {
+            i += 1;
         }
     }
     match evs.get(i) {
